@@ -97,6 +97,12 @@ def make_project(seed, root):
         open(os.path.join(src, f"zz_boxed{seed}.f90"), "w").write("\n".join([
             f"module boxed{seed}", "!! doc of the boxed module", "!!", "!! @warning", f"!! Boxed [home](|url|/index.html) and [mod](|url|/module/boxed{seed}.html)", "!! @endwarning", "!!",
             "!! * item", "!!", f"!!     continued [again](|url|/module/boxed{seed}.html) text", "implicit none", f"end module boxed{seed}"]) + "\n")
+    if seed % 4 == 2:
+        # a derived type defined inside a procedure (no page of its own): references in its documentation and in its components' documentation
+        open(os.path.join(src, f"zz_localtype{seed}.f90"), "w").write("\n".join([
+            f"module loct{seed}", "!! doc of the module", "implicit none", "contains", f"subroutine locs{seed}()", f"!! doc of the routine see [[loct{seed}]]",
+            "type :: local_t", f"!! local type doc see [[loct{seed}]] and [[locs{seed}]]", "integer :: c", f"!! component doc see [[loct{seed}]]", "end type local_t",
+            "type(local_t) :: v", f"!! variable doc [[loct{seed}]]", f"end subroutine locs{seed}", f"end module loct{seed}"]) + "\n")
     extra_targets = []
     if seed % 5 in (2, 4):
         # names that contain the name of a URL scheme (they are ordinary internal pages)
@@ -119,6 +125,8 @@ def make_project(seed, root):
     if files:
         targets.append(files[0].name + ".f90")  # a source file: a link only if the file has a page (incl_src)
     refs = (" See " + " and ".join(f"[[{t}]]" for t in targets) + ".") if targets and seed % 3 != 2 else ""
+    if seed % 4 == 2 and rng.random() < 0.7:
+        opts["proc_internals"] = True
     if rng.random() < 0.5:
         opts["page_dir"] = make_pages(root, rng, rng.randint(0, 2), refs)
     if rng.random() < 0.35:
